@@ -632,20 +632,36 @@ def spec_has_flex(spec) -> bool:
     return any(ev['flex'] for ev in iter_spec_events(spec))
 
 
+def spec_flags(specs: list, form: str) -> dict:
+    """Coarse, stable facts about the written value(s) for known-finding predicates; only the ones the given
+    encoding's known defects depend on, to keep failure groups few."""
+    evs = [ev for spec in specs for ev in iter_spec_events(spec)]
+    special = set('"\\\n')
+    if form == 'any':
+        return {'abs_tag_above_1': any(v > 1.0 for ev in evs for _, v in ev['abs_play'] + ev['abs_shift'])}
+    if form == 'text':
+        return {
+            'flex_tracks': any(ev['flex'] for ev in evs),
+            'cc_token_or_scale_key_special': any(special & set(ev.get('cc_token', '')) for ev in evs)
+            or any(special & set(k) for spec in specs for k, _ in spec['scale_settings']),
+        }
+    return {'relative_tag': any(ev['tag'] is not None for ev in evs)}
+
+
 def check_form(acc: core.Acc, case: dict, spec: dict, form: str, scene=None, expected=None) -> str:
     """write -> read -> observe -> write again for one encoding.  `scene`/`expected` may be supplied (sample
     files: expected is the observation of the first reading)."""
     sig = dict(part=PART, form=form)
+    if spec is not None:
+        sig.update(spec_flags([spec], form))
     label = f'{form} {core.jdump(case)[:400]}'
     try:
         if scene is None:
             scene = b_scene(spec)
     except Exception as exc:  # noqa: BLE001
         acc.fail('choreo_construct_raises', case, f'{label}\nbuilding the value raised {exc!r}', exc=exc_name(exc),
-                 abs_tag_above_1=any(v > 1.0 for ev in iter_spec_events(spec)
-                                     for _, v in ev['abs_play'] + ev['abs_shift']), part=PART)
+                 part=PART, form='any', **spec_flags([spec], 'any'))
         return 'construct_raises'
-    has_flex = spec_has_flex(spec) if spec is not None else any(e.flex_anim_tracks for e in scene.iter_events())
     try:
         w1 = write_text(scene) if form == 'text' else write_binary(scene)
     except Exception as exc:  # noqa: BLE001
@@ -659,7 +675,7 @@ def check_form(acc: core.Acc, case: dict, spec: dict, form: str, scene=None, exp
     except Exception as exc:  # noqa: BLE001
         shown = w1 if form == 'text' else f'pool={w1[1]!r} data={w1[0].hex()}'
         acc.fail('choreo_read_raises', case, f'{label}\nreader raised {exc!r} on the writer\'s own output:\n{shown}',
-                 exc=exc_name(exc), flex_tracks=has_flex, **sig)
+                 exc=exc_name(exc), **sig)
         return 'read_raises'
     if expected is None:
         expected = expect_scene(spec, form)
@@ -782,9 +798,9 @@ def check_image_case(acc: core.Acc, case: dict) -> None:
     """case: {'version': 2|3, 'entries': [[filename, focus, devs], ...]} in input order; 'light': skip the two
     second-generation saves (each save costs one 16 MiB-dictionary LZMA run per entry)."""
     version = case['version']
-    sig = dict(part=PART, form='image', version=version)
     label = f'scenes.image {core.jdump(case)[:500]}'
     specs = [make_spec(focus, devs) for _, focus, devs in case['entries']]
+    sig = dict(spec_flags(specs, 'image'), part=PART, form='image', version=version)
     if not all(representable(s) for s in specs):
         acc.count('choreo_excluded_unrepresentable')
         return
@@ -859,9 +875,11 @@ def check_image_case(acc: core.Acc, case: dict) -> None:
             if crc not in want:
                 continue
             (dur, last, snd), exp_scene = want[crc]
-            got = {'checksum': int(entry.checksum), 'duration_ms': entry.duration_ms, 'sounds': list(entry.sounds),
-                   'last_speak_ms': entry.last_speak_ms}
-            exp = {'checksum': crc, 'duration_ms': dur, 'sounds': snd, 'last_speak_ms': last if version == 3 else dur}
+            got = {'checksum': int(entry.checksum), 'duration_ms': entry.duration_ms, 'sounds': list(entry.sounds)}
+            exp = {'checksum': crc, 'duration_ms': dur, 'sounds': snd}
+            if version == 3:    # v2 does not store it; what the reader fills in is not a round-trip matter
+                got['last_speak_ms'] = entry.last_speak_ms
+                exp['last_speak_ms'] = last
             paths = diff(exp, got)
             # parse the scene from a *copy* of the entry so that `back` keeps its raw data for step (3)
             raw, pool = entry._data
@@ -872,8 +890,7 @@ def check_image_case(acc: core.Acc, case: dict) -> None:
                          f'{label}\nentry {crc:#x} read back differently at {paths[:8]}', fields=coarse(paths), **sig)
                 status = 'bad'
     except Exception as exc:  # noqa: BLE001
-        acc.fail('choreo_image_read_raises', case, f'{label}\nreader raised {exc!r}\nfile={w1.hex()}', exc=exc_name(exc),
-                 flex_tracks=any(spec_has_flex(s) for s in specs), **sig)
+        acc.fail('choreo_image_read_raises', case, f'{label}\nreader raised {exc!r}\nfile={w1.hex()}', exc=exc_name(exc), **sig)
         acc.outcome(('image', 'read_raises'))
         return
     # (3) second generation, (a) entries still unparsed (data copied), (b) every entry parsed first
@@ -930,7 +947,7 @@ def check_sample(acc: core.Acc, case: dict) -> None:
             scene = read_text(text)
             forms = ['text', 'binary']
     except Exception as exc:  # noqa: BLE001
-        acc.fail('choreo_read_raises', case, f'{label}: reader raised {exc!r}', exc=exc_name(exc), flex_tracks=False,
+        acc.fail('choreo_read_raises', case, f'{label}: reader raised {exc!r}', exc=exc_name(exc),
                  part=PART, form='sample')
         return
     ok = True
@@ -943,7 +960,7 @@ def check_sample(acc: core.Acc, case: dict) -> None:
                 bin_scene, _ = read_binary(*write_binary(scene))
             except Exception as exc:  # noqa: BLE001
                 acc.fail('choreo_read_raises', case, f'{label}: binary round trip raised {exc!r}', exc=exc_name(exc),
-                         flex_tracks=False, part=PART, form='binary')
+                         part=PART, form='binary')
                 ok = False
                 continue
             paths = diff_approx(observe_scene(scene, 'binary'), observe_scene(bin_scene, 'binary'))
